@@ -271,8 +271,8 @@ func TestCheck(t *testing.T) {
 	}
 
 	rng := r.Rand("c02")
-	nDerived := r.N(200000, 20000000)
-	nOther := r.N(200000, 20000000)
+	nDerived := r.N(200000, 150000000)
+	nOther := r.N(200000, 150000000)
 	opts := []gen.LineOpts{{}, {}, {Plain: true}, {UTF8Only: true}, {DyadicRates: true, SmallInts: true}}
 	for i := 0; i < nDerived; i++ {
 		o := opts[i%len(opts)]
